@@ -1602,4 +1602,65 @@ def pfRun (tree : List PFStmt) (sp : PyVal) (actions : Option (List PyVal)) : Ex
   | .done r => r
   | .cont _ => .error .other
 
+
+/-! ## Phase 6: the action cache when the caller reuses ONE list object (aliasing of caller-owned data)
+
+`SafeLearner.predict` stores `self._prev_actions = actions` - a REFERENCE to the caller's list - and, when no 0/1 is offered,
+`self._safe_actions = actions` (the caller's list itself).  A caller that refills ITS list in place and passes it again makes
+`_prev_actions != actions` compare the list with itself.  `OCall` = one call as the caller makes it: which of its list objects it
+passes (`oid`) and what that object holds NOW.  `prepareRef` mirrors the pinned lines with the reference kept; the value-based
+`prepare` (what every other theorem is about) is the repaired code (`_prev_actions` = a copy). -/
+
+structure OCall where
+  oid : Nat
+  arg : Arg
+deriving Repr
+
+structure AState where
+  st : State
+  /-- the caller's object `_prev_actions` refers to -/
+  prevOid : Option Nat := Option.none
+  /-- `_safe_actions` IS that object (nothing had to be copied) -/
+  aliasSafe : Bool := false
+deriving Repr
+
+/-- no float copy was needed: `_safe_actions = actions` (`is_safe` of the list / of every row; the pinned batched code never copied) -/
+def actsUntouched (fx : Fixes) : Acts → Bool
+  | .single as => !as.any isZeroOne
+  | .batch rows => !fx.batch || rows.all (fun r => !r.any isZeroOne)
+
+def prepareRef (fx : Fixes) (a : AState) (c : OCall) : AState × Arg :=
+  if a.prevOid = some c.oid then
+    -- the list compared with itself: never "changed".  The kept object holds the new content; an aliased `_safe_actions` too,
+    -- a float-copy list made for an earlier content stays as it is (stale)
+    let acts := argActs c.arg
+    let st := { a.st with prev := some acts, safe := if a.aliasSafe then acts else a.st.safe }
+    ({ a with st := st }, withActs c.arg st.safe)
+  else
+    let changed := match a.st.prev with
+      | Option.none => true
+      | some p => !pyEq p.toPy (argActs c.arg).toPy
+    let r := prepare fx a.st c.arg
+    (if changed then { st := r.1, prevOid := some c.oid, aliasSafe := actsUntouched fx (argActs c.arg) } else { a with st := r.1 }, r.2)
+
+/-- what the learner is offered, call after call (pinned: reference kept) -/
+def runPrepRef (fx : Fixes) : AState → List OCall → List Arg
+  | _, [] => []
+  | a, c :: cs => (prepareRef fx a c).2 :: runPrepRef fx (prepareRef fx a c).1 cs
+
+/-- what the learner is offered, call after call (repaired: a copy kept = the value-based `prepare`) -/
+def runPrep (fx : Fixes) : State → List OCall → List Arg
+  | _, [] => []
+  | st, c :: cs => (prepare fx st c.arg).2 :: runPrep fx (prepare fx st c.arg).1 cs
+
+/-- the caller never passes the object the wrapper currently keeps a reference to -/
+def neverKept (fx : Fixes) : AState → List OCall → Bool
+  | _, [] => true
+  | a, c :: cs => (a.prevOid != some c.oid) && neverKept fx (prepareRef fx a c).1 cs
+
+/-- every call passes an object never passed before (a fresh list per interaction, as coba's environments build them) -/
+def freshObjects : List Nat → List OCall → Bool
+  | _, [] => true
+  | seen, c :: cs => !seen.contains c.oid && freshObjects (c.oid :: seen) cs
+
 end Coba.C15
